@@ -448,7 +448,7 @@ func (c *Ctx) DispatchTable(prop string) {
 			continue
 		}
 		// the Data field of the RulesData built by the endpoint holds that parameter (element)
-		if !c.rulesDataHolds(E, dt) {
+		if !c.rulesDataHolds(sg, E, dt) {
 			c.R.Fail(rule, Fn(E)+":data", c.Pos(run), "the rules data handed to the ruler does not carry the endpoint's own request data ("+dt+")", "RulesData.Data = the endpoint's data (element)", nil)
 			continue
 		}
@@ -458,11 +458,11 @@ func (c *Ctx) DispatchTable(prop string) {
 		}
 		sent[g][dt] = true
 		// the action used for the permission check is the same constant
-		for _, f := range WithClosures(E) {
+		for _, f := range sg.Unit(E) {
 			for _, ci := range Calls(f, func(ci ssa.CallInstruction) bool { return ci.Common().StaticCallee() == sg.PreCheck }) {
 				okA := false
 				for _, a := range ci.Common().Args {
-					if isLoadOfGlobal(a, g) {
+					if isLoadOfGlobal(sg.InEndpoint(E, a), g) {
 						okA = true
 					}
 				}
@@ -520,8 +520,8 @@ func (c *Ctx) DispatchTable(prop string) {
 }
 
 // rulesDataHolds: some store into field Data of a ruler.RulesData in E (or its closures) stores the endpoint's data parameter (or its element).
-func (c *Ctx) rulesDataHolds(E *ssa.Function, dt string) bool {
-	for _, f := range WithClosures(E) {
+func (c *Ctx) rulesDataHolds(sg *Signer, E *ssa.Function, dt string) bool {
+	for _, f := range sg.Unit(E) {
 		for _, b := range f.Blocks {
 			for _, ins := range b.Instrs {
 				st, ok := ins.(*ssa.Store)
@@ -533,12 +533,16 @@ func (c *Ctx) rulesDataHolds(E *ssa.Function, dt string) bool {
 					continue
 				}
 				v := an.StripConv(st.Val)
+				if mi, ok := v.(*ssa.MakeInterface); ok {
+					v = mi.X
+				}
 				// direct parameter, or element of the parameter
 				if p := paramIndexOf(E, v); p >= 0 {
 					return true
 				}
 				if root, _, ok := elemLoad(v); ok {
-					if _, isP := root.(*ssa.Parameter); isP {
+					root = sg.InEndpoint(E, root)
+					if p := paramIndexOf(E, root); p >= 0 {
 						return true
 					}
 				}
